@@ -29,12 +29,18 @@ def generate(rng, tier):
         cases.append({"entry": entry, "rate": rate, "accel": accel, "T": T, "acc": acc, "amb": rng.randrange(len(AMBIENT)), "family": fam})
     return cases
 
+def _clear(c):
+    """the request for a cleared accumulator: the literal, or an equal string built at run time (what a caller reading it from a file or a
+    command line passes: equal to "clear" but a different object)"""
+    return "clear" if (c["rate"] + c["accel"]) % 2 else "".join(("cle", "ar"))
+
 def run_impl(c):
     k, v = AMBIENT[c["amb"]]
     setattr(mpmath.mp, k, v)
-    acc = "clear" if c["acc"] is None else c["acc"]
+    acc = _clear(c) if c["acc"] is None else c["acc"]
     try:
-        if c["entry"] == 0: p, a = ebb_calc.move_dist_lt(c["rate"], c["accel"], c["T"], acc)
+        if c["entry"] == 0 and c["acc"] is None and c["T"] % 3 == 0: p, a = ebb_calc.move_dist_lt(c["rate"], c["accel"], c["T"])      # argument omitted: the documented default is "clear"
+        elif c["entry"] == 0: p, a = ebb_calc.move_dist_lt(c["rate"], c["accel"], c["T"], acc)
         elif c["entry"] == 1: p, a = ebb_motion.moveDistLMA(c["rate"], c["accel"], c["T"], acc)
         else: p, a = ebb_motion.moveDistLM(c["rate"], c["accel"], c["T"]), 0
     finally:
